@@ -29,6 +29,12 @@ CLAIMED = {
  "C19": dict(cat="proof", ref="5 C19", tech=TECH + "; cancel-point assertion for the abandoned-send clause",
    text="the two transport adapters of zlink-tokio and zlink-smol: ReadHalf::read is a pass-through of the runtime read; WriteHalf::write hands the runtime exactly buf, in order, nothing else (loop invariant sent = buf[..pos], termination given n >= 1), a prefix on error. Listeners built from an inherited descriptor register a non-blocking descriptor (both crates); Connection::new takes its id from one atomic fetch_add and gives both halves the same id. The abandoned-send clause is a cancel-point obligation in the write loop; it FAILS in both crates and is reported as two KNOWN-FINDINGs (reproduced on real sockets by replay_rt)",
    note="assumed: kernel FIFO and runtime write/read contracts (trusted leaves); composition with C01/C02 on paper; async-io / tokio constructor preconditions assumed from their docs; uniqueness of fetch_add results assumed (hardware atomicity, wrap after 2^64); bind and bidirectional concurrency not decided"),
+ "C09": dict(cat="proof", ref="12 C08 / C09", tech=TECH + " (N11 fragments of Server::run)",
+   text="PER-ITERATION containment only: in the statements Server::run executes after a call was read, a read failure, an undecodable call or a failed reply write removes exactly the calling connection; every other connection keeps its index and state; none of these statements propagates an error out of the loop; after a stream item a failed write drops only that subscription",
+   note="NOT decided: the property's quantifier (all interleavings of faulty and healthy connections) - the select_biased! loop, its awaits and the unsafe reborrow are outside the contracts; accept failures end the server by design; a search harness with injected faults (garbage, truncated frames, EOF mid-burst, failing writes, streams) is used to find witnesses, not to decide"),
+ "C10": dict(cat="proof", ref="12 C08 / C10", tech=TECH + " (N11 fragments of Server::run)",
+   text="PER-ITERATION facts only: a Multi answer parks exactly the calling connection with its stream; every stream item is handed untouched (flags included) to that connection's writer; at stream end exactly that connection returns to the call list; a failed item write drops only that subscription; other streams and connections are untouched",
+   note="NOT decided: service of other clients while a stream is open and all interleavings (the select_biased! loop); 'pipelined calls behind the streaming call answered in order' is C01 + these steps on paper"),
  "C13": dict(cat="proof", ref="5 C13", tech=TECH,
    text="hand-written part of the parser, for ALL byte strings: the scanners ws (skips exactly the grammar's `_` production), whitespace_only, bytes_to_str, field_name, type_name, interface_name and the look-ahead of inline_type never index out of bounds, never unwrap an Err, terminate, consume exactly the returned token, fail only when no legal token starts the input, and the token is maximal and in its Varlink class; the field loops of type_def and parameter_list terminate and drop no parsed name; method_def / error_def only consume; parse_from_str accepts only when nothing but whitespace/comments remains",
    note="NOT decided: everything built from winnow combinators (alt, separated): the type grammar, interface_def's member loop, comment_def, source order; winnow leaves (multispace0, literal, take_while), from_utf8, position/contains and the IDL node constructors are assumed stubs; underscore placement in field names is a known finding"),
@@ -39,8 +45,6 @@ CLAIMED = {
 NA = {
  "C04": "classification is decided inside serde-derive untagged expansion + serde_json content buffering; no function of /repo holds that logic and neither Verus nor CBMC can ingest it",
  "C05": "envelope shapes are decided by serde-derive output and serde_json; the hand-written Call (de)serialisers are generic over external serde traits whose every contract would be assumed",
- "C09": "relational all-schedules property of the select_biased! loop in Server::run (macro-generated, unsafe reborrow, multi-future); no per-function contract expresses it",
- "C10": "hand-over of a connection between call list and stream list under all interleavings is the Server::run loop; whole-history and scheduling dependent",
  "C11": "aliasing violation behind an unsafe lifetime-extending reborrow; Verus has no model of raw-pointer reborrows; a memory-model run would be a different technique family",
  "C12": "subject is the token stream emitted by a proc-macro for every trait shape; code behind macros",
  "C14": "Display impls go through core::fmt and the parser through winnow combinators; neither is within Verus's language nor CBMC's reach for unbounded texts",
